@@ -43,6 +43,18 @@ def make_config(user):
         return Config(user)
 
 
+def make_css_config(user):
+    """Stylesheet Config whose snippet table is converted outside the tracer and handed over through the documented
+    `cache` option (converting 230 snippets under the tracer costs ~0.5 s per path; C08 checks that a cache never
+    changes a result)."""
+    from emmet.config import Config
+    from emmet.stylesheet import convert_snippets
+    with untraced():
+        cfg = Config(user)
+        cfg.cache = {'stylesheet_snippets': convert_snippets(cfg.snippets)}
+    return cfg
+
+
 def set_literal(tokens, marker, value):
     """Replace `marker` inside Literal token values by `value` (possibly symbolic)."""
     n = 0
